@@ -369,6 +369,16 @@ func families() [][]poolEntry {
 			e("unsafe", `{ node(id: 2) { ... on Item { name(prefix: "1,sep=s2") } } }`, true),
 			e("unsafe", `{ node(id: 2) { ... on Item { name(prefix: "1", sep: "2") } } }`, true),
 			e("unsafe", `{ ...F } fragment F on Query { echo(s: "lit") }`, true),
+			// D-06h (repaired): nested literals that are invalid for their position must be rejected, not served
+			e("unsafe", `{ echo(l: ["5"]) }`, true), e("unsafe", `{ echo(l: [5]) }`, true), e("unsafe", `{ echo(l: [1.5]) }`, true),
+			e("unsafe", `{ echo(o: {x: "5"}) }`, true), e("unsafe", `{ echo(o: {x: true}) }`, true), e("unsafe", `{ echo(o: {x: 5}) }`, true),
+			e("unsafe", `{ echo(o: {y: 1, zz: 2}) }`, true), e("unsafe", `{ mut(n: {l: [1, "2"]}) }`, true), e("unsafe", `{ mut(os: [{y: 1}, {y: "1"}]) }`, true),
+			// D-06i (repaired): integer tokens that do not spell back
+			e("unsafe", `{ echo(id: -0) }`, true), e("unsafe", `{ echo(id: 0) }`, true), e("unsafe", `{ echo(i: -0) }`, true), e("unsafe", `{ echo(f: -0) }`, true), e("unsafe", `{ echo(l: [-0, 1]) }`, true),
+			// D-06j (repaired): variables the document uses without defining them
+			e("unsafe", `{ a: echo(s: $__pcv0) b: echo(s: "x") }`, true), e("unsafe", `{ a: echo(s: "y") b: echo(s: "x") }`, true),
+			e("unsafe", `{ ...F b: echo(s: "x") } fragment F on Query { a: echo(s: $__pcv0) }`, true),
+			ev("unsafe", `query Q($x: String) { a: echo(s: $x) b: echo(s: "x") c: echo(s: $__pcv1) }`, true, []string{"Q"}, V("x", "v")),
 		},
 	}
 }
